@@ -98,10 +98,7 @@ func runHistoryCase(c Case) Result {
 	}
 	r.Compile = "ok"
 	str0 := e.String()
-	ast0 := ""
-	if n, err := jparse.Parse(c.Expr); err == nil {
-		ast0 = astWire(n)
-	}
+	ast0 := rootWire(e)
 	var others []*jsonata.Expr
 	for _, s := range c.Others {
 		if oe, err := jsonata.Compile(s); err == nil {
@@ -136,7 +133,11 @@ func runHistoryCase(c Case) Result {
 	} else {
 		r.Direct["string_same"] = "ok"
 	}
-	_ = ast0
+	if rootWire(e) != ast0 {
+		r.Direct["tree_same"] = "the expression's tree changed during the history"
+	} else {
+		r.Direct["tree_same"] = "ok"
+	}
 	r.Impl = "-"
 	return r
 }
